@@ -30,9 +30,12 @@ def defaultPrec : Nat := 28
 /-- the ambient precision a thread sees -/
 def threadPrec (isImportingThread : Bool) : Nat := if isImportingThread then importPrec else defaultPrec
 
-/-- How a piece of Decimal arithmetic is reached: through a function decorated with `@precision(prec=15)`
-(`_get_digital_value`, `_get_int_value`, `_get_point_value`) or not (`_frac_like_number_parse`'s divisions, the CJK
-fraction / percentage paths). -/
+/-- How a piece of Decimal arithmetic is reached: through a function decorated with `@precision(prec=15)` — in
+the code as it is every path, since `BaseNumberParser.parse`, `CJKNumberParser.parse` and the compound-currency merge
+are decorated (fix "number parsers run under precision 15 on every thread") — or not: before that fix only
+`_get_digital_value`, `_get_int_value`, `_get_point_value` were, and the divisions of `_frac_like_number_parse` and the
+CJK fraction / percentage paths ran under the ambient precision (kept as the regression variant; the correspondence
+decides on every run which variant the working tree follows). -/
 inductive Path
   | decorated
   | undecorated
@@ -46,6 +49,11 @@ def effectivePrec (path : Path) (ambient : Nat) : Nat :=
 
 /-- run a computation that takes the context precision -/
 def runUnder {α} (path : Path) (ambient : Nat) (f : Nat → α) : α := f (effectivePrec path ambient)
+
+/-- A model whose Decimal arithmetic `f id q` (a function of the context precision) is reached through `path`:
+what it answers under a given ambient precision. -/
+def parseVia {Q R} (path : Path) (f : ModelId → Q → Nat → R) : ModelId → Q → Nat → R :=
+  fun id q ambient => runUnder path ambient (f id q)
 
 /-! ### a recognise call -/
 
